@@ -13,10 +13,15 @@ import numpy as np
 
 def dtd_int(n):
     """D'D as an integer matrix built from the definition of D."""
-    D = np.zeros((n - 2, n), dtype=np.int64)
+    # P = sum_i d_i d_i' with d_i = e_i - 2 e_{i+1} + e_{i+2}  (accumulated directly: D'D is pentadiagonal,
+    # a dense integer matmul would cost n^3)
+    P = np.zeros((n, n), dtype=np.int64)
+    c = (1, -2, 1)
     for i in range(n - 2):
-        D[i, i], D[i, i + 1], D[i, i + 2] = 1, -2, 1
-    return D.T @ D
+        for a in range(3):
+            for b in range(3):
+                P[i + a, i + b] += c[a] * c[b]
+    return P
 
 
 _DTD = {}
